@@ -7,10 +7,11 @@ CONSTANTS AMOUNTS, NONCES, TXHS, MAXH, MAXOPS, FACTORS, POWERS, SLASHIDS, NSTDEL
           PREFUND,     \* every staker starts with a Deposit of this amount in every LST/NST asset (0 = none)
           PREDEL,      \* ... and then delegates this amount of it to every operator (0 = none)
           EVENTS,      \* event names enabled in Next (generation profiles)
+          WANTED,      \* coverage goals tracked in this configuration (subset of AllGoals; {} = none)
           FRESH   \* TRUE: every undelegation request carries a (nonce, tx hash) pair never used before
 
-VARIABLES L, G, hist, last, nfail, atom
-vars == <<L, G, hist, last, nfail, atom>>
+VARIABLES L, G, hist, last, nfail, atom, hit
+vars == <<L, G, hist, last, nfail, atom, hit>>
 
 \* generation convenience: the behaviour starts with one Deposit per (staker, LST/NST asset)
 PreEvents ==
@@ -30,6 +31,7 @@ Init ==
   /\ last = [ev |-> "init", ok |-> TRUE]
   /\ nfail = 0
   /\ atom = TRUE
+  /\ hit = {}
 
 Do(ev, a) ==
   /\ ev \in EVENTS
@@ -37,6 +39,7 @@ Do(ev, a) ==
   /\ LET r == Apply(L, ev, a) IN
      /\ (r.err = "" \/ nfail < FAILBUDGET)
      /\ nfail' = IF r.err # "" /\ FAILBUDGET < MAXOPS THEN nfail + 1 ELSE nfail
+     /\ hit' = Goals(L, ev, a, r) \cap WANTED
      /\ atom' = (r.err = "" \/ ev = "EndBlock" \/ r.st = L)   \* C09: a reported failure left the store untouched
      /\ L' = r.st
      /\ G' = GhostStep(G, ev, a, r.err = "", L, r.st)
@@ -63,7 +66,7 @@ Next ==
 
 Spec == Init /\ [][Next]_vars
 
-View == <<L, G, nfail, atom>>
+View == <<L, G, nfail, atom, hit>>
 
 \* ----- invariants (properties C01, C02, C03-aggregates on the model) -----
 InvConservation == Conservation(L, G)
@@ -78,6 +81,15 @@ InvPendingSums  == PendingSums(L)
 InvIndex        == IndexBijective(L)
 \* C09 (model level): a reported failure leaves the store untouched
 InvAtomic       == atom
+
+ASSUME TLCSet(1, {})
+\* goal-directed generation (breadth-first run): print the history the first time each wanted goal
+\* is hit (per TLC worker; duplicates are dropped by the pipeline). Register 1 holds the goals
+\* already emitted by this worker.
+EmitGoals ==
+  \A g \in hit :
+     LET seen == TLCGet(1) IN
+     g \in seen \/ (TLCSet(1, seen \cup {g}) /\ PrintT("GOAL " \o g \o " " \o ToJson(hist)))
 
 \* behaviour generation: print the history once it reaches the depth bound
 EmitAtDepth == Len(hist) < MAXOPS + Len(PreEvents) \/ PrintT("BEHAVIOUR " \o ToJson(hist))
